@@ -53,6 +53,7 @@ type c15Sess struct {
 	delivered  map[[16]byte]int
 	tunSeen    map[*vnNode]int
 	handedToR  map[string]bool // inner packets endpoints handed to R (as strings)
+	nonces     map[string]string
 	oldInners  map[[2]*vnNode][][]byte
 	sess       int
 	desc       string
@@ -106,6 +107,13 @@ func (s *c15Sess) onUDP(p *vnPacket) {
 	if err := ih.Parse(inner); err != nil || ih.Type != header.Message || ih.Subtype != header.MessageNone {
 		return
 	}
+	// two different inner packets under one end-to-end key and nonce hand the relay the XOR of their plaintexts
+	nk := fmt.Sprintf("%s/%d/%d", p.Sender.Name, ih.RemoteIndex, ih.MessageCounter)
+	if prev, ok := s.nonces[nk]; ok && prev != string(inner) {
+		r.Violation("C15/inner-nonce-reused", fmt.Sprintf("%s handed the relay two different inner packets sealed under the same end-to-end tunnel index %d and counter %d", p.Sender.Name, ih.RemoteIndex, ih.MessageCounter), s.rec(map[string]any{"first": verifkit.Hex([]byte(prev)), "second": verifkit.Hex(inner)}))
+	}
+	s.nonces[nk] = string(inner)
+	r.Count("inner_nonces_checked", 1)
 	// which endpoint is this for: the one that holds the inner index for a tunnel with the sender
 	nb := make([]byte, 12)
 	var dst *vnNode
@@ -358,7 +366,7 @@ func TestVerifC15(t *testing.T) {
 			extra := m{"cipher": cipher, "listen": m{"accept_recv_error": "never"}, "timers": m{"connection_alive_interval": 3600, "pending_deletion_interval": 3600}}
 			use := vnMerge(m{"relay": m{"use_relays": true}}, extra)
 			s := &c15Sess{r: r, nw: nw, sess: sess, desc: fmt.Sprintf("cert v%d curve=%v cipher=%s", ver, curve, cipher),
-				sent: map[[16]byte]c15Sent{}, delivered: map[[16]byte]int{}, tunSeen: map[*vnNode]int{}, handedToR: map[string]bool{}, oldInners: map[[2]*vnNode][][]byte{}}
+				sent: map[[16]byte]c15Sent{}, delivered: map[[16]byte]int{}, tunSeen: map[*vnNode]int{}, handedToR: map[string]bool{}, nonces: map[string]string{}, oldInners: map[[2]*vnNode][][]byte{}}
 			s.A = nw.AddNode(ca.issue(vs, "a", "10.1.0.1/16", "", nil), []*vnCA{ca}, "192.0.2.1:4242", use)
 			s.C = nw.AddNode(ca.issue(vs, "c", "10.1.0.3/16", "", nil), []*vnCA{ca}, "192.0.2.3:4242", use)
 			s.B = nw.AddNode(ca.issue(vs, "b", "10.1.0.2/16", "", nil), []*vnCA{ca}, "192.0.2.2:4242", use)
@@ -393,6 +401,27 @@ func TestVerifC15(t *testing.T) {
 			nh := 12 + rng.IntN(12)
 			for i := 0; i < nh; i++ {
 				pr := pairs[rng.IntN(len(pairs))]
+				if rng.IntN(3) == 0 {
+					// a USO superpacket: every segment goes through the relay as its own inner packet
+					k, chunk := 2+rng.IntN(4), 40+rng.IntN(300)
+					sp, segs, ids := vnUSO(pr[0].Ident.Addr(), pr[1].Ident.Addr(), 4000, 80, k, chunk, 16+rng.IntN(chunk-15))
+					allowed := map[[16]byte]bool{}
+					for i, id := range ids {
+						if i < len(segs) {
+							s.sent[id] = c15Sent{from: pr[0], to: pr[1], bytes: segs[i]}
+							allowed[id] = true
+						}
+					}
+					nw.TunSendSuper(pr[0], sp)
+					nw.Flush()
+					got := s.judgeTun("honest superpacket", allowed)
+					r.Eval(1)
+					r.Count("honest_superpackets", 1)
+					r.Count("honest_superpacket_segments_delivered", len(got))
+					r.Count("honest_superpacket_segments_missing", len(segs)-len(got))
+					r.DistinctClass(fmt.Sprintf("honest superpacket %s->%s segments=%d all-delivered=%v", pr[0].Name, pr[1].Name, len(segs), len(got) == len(segs)))
+					continue
+				}
 				id := s.send(pr[0], pr[1], rng.IntN(900))
 				nw.Flush()
 				got := s.judgeTun("honest", map[[16]byte]bool{id: true})
